@@ -27,7 +27,7 @@ from .absint import BoolF, Coll, Const, DictV, Inst, Interp, Sym, assign_atoms, 
 from .common import where
 from .tables import (
     ATOMS, BEHAVIOR, DETECTOR, EVAL_GRAPH, EXPLICIT_QUERY, LEGAL_POINTS, MATCHER, MODREQ, OTHER_QUERIES, PIPE_MODULES, RULE, SEARCHES, VERBS, VIOLATIONS,
-    Inliner, Run, Scenario, alias_scenarios, descend_pipeline, asked_kinds, bucket_wiring, demand_run, legal_scenarios, parse_language_doc, plain_mode, point_env, point_name,
+    Inliner, Run, Scenario, alias_scenarios, bound_args, descend_pipeline, asked_kinds, bucket_wiring, demand_run, legal_scenarios, parse_language_doc, plain_mode, point_env, point_name,
     run_scenario,
 )
 
@@ -268,11 +268,15 @@ def run_t4(repo: Repo, res: Result, inl: Inliner | None) -> None:
         imp = sc.import_
         for n, e in enumerate(run.modreq_new):
             key = (id(e.node), imp)
-            if key in seen_sites or len(e.args) < 3:
+            if key in seen_sites:
                 continue
             seen_sites.add(key)
-            a0, a1 = _side(e.args[0]), _side(e.args[1])
-            flag = e.args[2]
+            eargs = bound_args(repo, e)
+            if len(eargs) < 3:
+                res.undecide("C01.T4", f"{e.fi.relpath}::{e.fi.qualname}::ModuleRequirement(...)", "the constructor arguments could not be bound to (importers, importees, flag)", where(e.fi, e.node) if e.node is not None else "")
+                continue
+            a0, a1 = _side(eargs[0]), _side(eargs[1])
+            flag = eargs[2]
             ok = a0 == {subj} and a1 == {obj} and isinstance(flag, Const) and flag.value is imp
             what = "rule" if e.fi is not None and e.fi.module.name == RULE else "matcher"
             detail = (
@@ -284,10 +288,14 @@ def run_t4(repo: Repo, res: Result, inl: Inliner | None) -> None:
             res.add("C01.T4", f"{e.fi.relpath}::{e.fi.qualname}::ModuleRequirement(...) [{'import' if imp else 'be imported by'}]", ok, detail, where(e.fi, e.node) if e.node is not None else "", kind="flow")
         for q in run.queries:
             key = (id(q.node), q.name, imp)
-            if key in seen_sites or len(q.args) < 2:
+            if key in seen_sites:
                 continue
             seen_sites.add(key)
-            a0, a1 = _side(q.args[0]), _side(q.args[1])
+            qargs = bound_args(repo, q)
+            if len(qargs) < 2:
+                res.undecide("C01.T4", f"{q.fi.relpath}::{q.fi.qualname}::{q.name} arguments", "the arguments of the graph question could not be bound to (dependents, dependent_upons)", where(q.fi, q.node))
+                continue
+            a0, a1 = _side(qargs[0]), _side(qargs[1])
             want0, want1 = ({subj}, {obj}) if imp else ({obj}, {subj})
             ok = a0 == want0 and a1 == want1
             res.add(
@@ -460,7 +468,7 @@ def run_t5(repo: Repo, res: Result) -> None:
         first, second = run_twice(repo, sc)
         names1 = sorted(q.name for q in first.queries)
         names2 = sorted(q.name for q in second if _sat(q.guard))
-        stale = [q for q in second if "evaluable" in (roots_of(q.recv) | roots_of(q.args[0] if q.args else Const(None)) | roots_of(q.args[1] if len(q.args) > 1 else Const(None)))]
+        stale = [q for q in second if "evaluable" in set().union(roots_of(q.recv), *[roots_of(a) for a in bound_args(repo, q)])]
         ok = names1 == names2 and not stale
         res.add(
             "C01.T5", f"{aa0.relpath}::{aa0.qualname}::pipeline [{'import' if imp else 'be imported by'}]", ok,
@@ -484,8 +492,7 @@ def run_t5(repo: Repo, res: Result) -> None:
             e = run.behavior_new[0]
             init = repo.lookup_method(e.result.cls, "__init__")
             params = init.param_names[1:] if init else list(e.result.cls.ann_attrs)
-            bound = dict(zip(params, e.args))
-            bound.update(e.kwargs)
+            bound = dict(zip(params, bound_args(repo, e, params)))
             want = {"should": atom("cfg.should"), "should_only": atom("cfg.should_only"), "should_not": TRUE, "except_present": TRUE}
             bad = []
             for p, role in inl_roles.items():
@@ -505,10 +512,11 @@ def run_t5(repo: Repo, res: Result) -> None:
         _add(res, "C01.T5", f"{aa.relpath}::{aa.qualname}::alias rewrite [{tag} anything: flags]", ok, detail, where(aa, aa.node), "flow", taint)
         # module requirement: objects := subjects (the same modules), direction kept
         first = run.modreq_new[0] if run.modreq_new else None
-        ok = first is not None and len(first.args) >= 3
+        fargs = bound_args(repo, first) if first is not None else []
+        ok = first is not None and len(fargs) >= 3
         detail = "no module requirement built"
         if ok:
-            a0, a1, flag = first.args[:3]
+            a0, a1, flag = fargs[:3]
             same = a0 is a1 or (isinstance(a0, Coll) and isinstance(a1, Coll) and len(a0.entries) == len(a1.entries) and all(term_of(x) == term_of(y) and _same(g, h) for (x, g), (y, h) in zip(a0.entries, a1.entries)))
             ok = same and roots_of(a0) == {"S"} and isinstance(flag, Const) and flag.value is sc.import_
             detail = (
@@ -517,8 +525,8 @@ def run_t5(repo: Repo, res: Result) -> None:
             )
         res.add("C01.T5", f"{aa.relpath}::{aa.qualname}::alias rewrite [{tag} anything: objects]", ok, detail, where(aa, aa.node), kind="flow")
         # de-duplication of the subjects: only strict dotted descendants of another subject may be dropped
-        if first is not None and first.args and isinstance(first.args[0], Coll):
-            subj = first.args[0]
+        if first is not None and fargs and isinstance(fargs[0], Coll):
+            subj = fargs[0]
             for x, g in subj.entries:
                 t = term_of(x)
                 okx = isinstance(t, tuple) and t[0] == "elem" and t[1] == ("root", "S")
